@@ -19,8 +19,9 @@ CONSTANTS UseRelay,       \* BOOLEAN: the connection goes through a transit rela
 \* ---- record classes (enumerated for the round-trip tests) ---------------------------------------------------
 Types == {"KCM", "Ping", "Pong", "Open", "Data", "Close", "Ack"}
 IdClasses == {"0", "1", "max32"}                        \* 32-bit ids / seqnums: 0, 1, 2^32-1
-LenClasses == {"0", "1", "65509", "65510", "65511", "65520", "131038", "131039"}   \* Data payload lengths: the encoded
-   \* message is 9 bytes longer, so 65510 fills one Noise packet exactly (65519) and 65511 needs two
+LenClasses == {"0", "1", "65509", "65510", "65511", "65520", "131028", "131029", "131030", "131038", "131039", "196548"}
+   \* Data payload lengths: the encoded message is 9 bytes longer, so 65510 fills one Noise packet exactly (65519) and 65511
+   \* needs two; 131029 fills two exactly, 196548 three (every packet of the frame full: 2 * 65535 and 3 * 65535 bytes of frame)
 NameClasses == {"ascii", "nonascii", "long"}            \* Open subprotocol names
 RecordClasses ==
     {[t |-> "KCM", id |-> "-", seq |-> "-", x |-> "-"]}
